@@ -41,7 +41,8 @@ func (s *server) Select(selectorContext *Context) (string, error) {
 		}
 	}
 	if serverId == "" {
-		panic("unexpected behaviour")
+		// No candidate is left that could host one more replica of the shard: refuse the selection
+		return "", selectors.ErrUnsatisfiedEnsembleReplicas
 	}
 	return serverId, nil
 }
